@@ -365,6 +365,7 @@ def run(ctx, res):
     uz = run_urlize(ctx, res, jinja2, dist, nontrivial)
     e2e = run_e2e(ctx, res, jinja2, dist, nontrivial)
     fb = run_filter_blocks(ctx, res, jinja2, dist, nontrivial)
+    fb += run_envways(ctx, res, jinja2, dist)
     res.coverage.update({
         "evaluations": evaluations + uz["evaluations"] + e2e["renders"] + dist.get("tojson-oracle", 0) + fb,
         "filter_block_renders": fb,
@@ -685,9 +686,30 @@ def run_filter_blocks(ctx, res, jinja2, dist, nontrivial):
     return renders
 
 
+def run_envways(ctx, res, jinja2, dist):
+    """the filter templates loaded by name through environments reached by overlays (harness/gen/autoesc_envways.py): the render must
+    equal a fresh Environment's with the effective options"""
+    from harness.gen import autoesc_envways as W
+
+    rng = ctx.rng("envways")
+    data = {"x": rstr(rng, 3), "y": rstr(rng, 2)}
+    n = 0
+    for sc in W.plan(rng, ctx.pick(10, 200)):
+        for way, i, kind, name, out, fresh in W.execute(jinja2, sc, data):
+            n += 1
+            dist["envway"] = dist.get("envway", 0) + 1
+            if out != fresh:
+                res.violate(f"C24:envway:{way}", f"environment reached by {way} (autoescape={kind}): get_template({name!r}).render = {out!r}; a fresh "
+                            f"Environment with the effective options renders {fresh!r}; history {sc}", {"scenario": sc, "data": data, "name": name})
+    return n
+
+
 def replay(ctx, case):
     jinja2 = core.import_jinja()
     c = case["case"]
+    if "scenario" in c:
+        from harness.gen import autoesc_envways as W
+        return [{"way": w, "autoescape": k, "name": n, "render": o, "fresh": f} for w, i, k, n, o, f in W.execute(jinja2, c["scenario"], c["data"])]
     if "src" in c and "autoescape_default" in c:
         try:
             return {"render": jinja2.Environment(autoescape=c["autoescape_default"]).from_string(c["src"]).render(**c["data"])}
